@@ -196,18 +196,13 @@ func (e *Encoder) encode(x starlark.Value) {
 		e.w.WriteByte(opEMPTY_SET)
 		e.memoize(x)
 
-		elems, first := x.Elems(), true
+		elems := x.Elems()
 		for len(elems) > 0 {
 			batch := elems
 			if len(batch) > 1000 {
 				batch = batch[:1000]
 			}
 			elems = elems[len(batch):]
-
-			if !first {
-				e.encode(x)
-			}
-			first = false
 
 			e.w.WriteByte(opMARK)
 			for _, elem := range batch {
@@ -246,18 +241,13 @@ func (e *Encoder) encodeComplex(x starlark.Value) {
 		e.w.WriteByte(opEMPTY_DICT)
 		e.memoize(x)
 
-		items, first := x.Items(), true
+		items := x.Items()
 		for len(items) > 0 {
 			batch := items
 			if len(batch) > 1000 {
 				batch = batch[:1000]
 			}
 			items = items[len(batch):]
-
-			if !first {
-				e.encode(x)
-			}
-			first = false
 
 			e.w.WriteByte(opMARK)
 			for _, kvp := range batch {
@@ -283,17 +273,11 @@ func (e *Encoder) encodeComplex(x starlark.Value) {
 			e.encode(el)
 			e.w.WriteByte(opAPPEND)
 		default:
-			first := true
 			for i := 0; i < len; {
 				batch := len - i
 				if batch > 1000 {
 					batch = 1000
 				}
-
-				if !first {
-					e.encode(x)
-				}
-				first = false
 
 				e.w.WriteByte(opMARK)
 				for ; batch > 0; i, batch = i+1, batch-1 {
@@ -308,18 +292,13 @@ func (e *Encoder) encodeComplex(x starlark.Value) {
 		e.w.WriteByte(opEMPTY_DICT)
 		e.memoize(x)
 
-		attrs, first := x.AttrNames(), true
+		attrs := x.AttrNames()
 		for len(attrs) > 0 {
 			batch := attrs
 			if len(batch) > 1000 {
 				batch = batch[:1000]
 			}
 			attrs = attrs[len(batch):]
-
-			if !first {
-				e.encode(x)
-			}
-			first = false
 
 			e.w.WriteByte(opMARK)
 			for _, attr := range batch {
